@@ -294,3 +294,10 @@ package j5convert
 //@   |   vrules(result0.Options) != nil && typeis(vrules(result0.Options).Type, *validate.FieldConstraints_Repeated) && vrep(result0.Options) != nil
 //@   |   && vrep(result0.Options).MinItems == arrField(node).Rules.MinItems && vrep(result0.Options).MaxItems == arrField(node).Rules.MaxItems && vrep(result0.Options).Unique == arrField(node).Rules.UniqueItems
 //@   ensures required: result1 == nil && node.Schema.Required ==> vrules(result0.Options) != nil && vrules(result0.Options).Required != nil && *vrules(result0.Options).Required
+
+// every documented key format is accepted, with or without list rules (C07)
+//@ spec func keyFormatKnown(k *schema_j5pb.KeyField) bool = k.Format == nil || typeis(k.Format.Type, *schema_j5pb.KeyFormat_Informal_) || typeis(k.Format.Type, *schema_j5pb.KeyFormat_Custom_)
+//@   | || typeis(k.Format.Type, *schema_j5pb.KeyFormat_Uuid) || typeis(k.Format.Type, *schema_j5pb.KeyFormat_Id62)
+//@ func buildField
+//@   ensures key.accept: typeis(node.Schema, *schema_j5pb.Field_Key) && keyField(node) != nil && keyFormatKnown(keyField(node)) ==> result1 == nil
+//@   ensures leaf.accept: (typeis(node.Schema, *schema_j5pb.Field_String_) && strField(node) != nil) || (typeis(node.Schema, *schema_j5pb.Field_Bool) && boolField(node) != nil) || (typeis(node.Schema, *schema_j5pb.Field_Bytes) && bytesField(node) != nil) ==> result1 == nil
